@@ -113,10 +113,17 @@ for n in """array zeros ones full zeros_like ones_like arange linspace meshgrid 
     linalg.norm linalg.inv linalg.eigvalsh linalg.eigh random.choice random.random random.uniform
     random.default_rng isclose amax amin mod remainder floor_divide power logical_and logical_or
     logical_not array_equal searchsorted cumprod diff flip repeat hstack vstack eye identity
+    take compress choose clip add subtract multiply divide true_divide negative positive square hypot arctan arccos
+    arcsin degrees radians matmul kron trace triu tril linalg.det linalg.solve linalg.eig linalg.eigvals linalg.svd
+    linalg.matrix_rank linalg.pinv histogram interp column_stack dstack nan_to_num around rint trunc isnan isinf
+    lexsort partition argpartition ptp median percentile quantile std var union1d intersect1d setdiff1d in1d isin
+    indices empty empty_like full_like fromiter cosh sinh tanh log2 log10 exp2 expm1 log1p heaviside bitwise_and
+    bitwise_or bitwise_xor invert left_shift right_shift greater less equal not_equal greater_equal less_equal
+    argwhere flatnonzero nanmax nanmin nansum nanmean convolve correlate cov corrcoef gradient trapz pad
     fill_diagonal_NOT""".split():
     if not n.endswith("_NOT"):
         EXT["numpy." + n] = "fresh"
-for n in "einsum asarray squeeze reshape transpose ravel diag real imag atleast_1d atleast_2d swapaxes broadcast_to expand_dims".split():
+for n in "einsum asarray asanyarray ascontiguousarray require frombuffer squeeze reshape transpose ravel diag diagonal real imag atleast_1d atleast_2d atleast_3d swapaxes moveaxis rollaxis broadcast_to broadcast_arrays expand_dims split array_split hsplit vsplit ix_ nditer ndenumerate".split():
     EXT["numpy." + n] = "view"
 for n in "iinfo finfo errstate".split():
     EXT["numpy." + n] = "fresh"
@@ -911,7 +918,13 @@ class FT2(FT):
             if d[1] in EXT_WRITES or k is None:
                 fail(node, f"callback {d[1]}", self.f.qual)
             return FRESH if k in ("fresh", "const") else D(True, (), frozenset().union(*[x.srcs() for x in elem_args]) if elem_args else ())
-        # a run-time callable (parameter, bound method of a local): assumed effect-free (see funcvalue / TRUST)
+        # a run-time callable (parameter, np.vectorize object): assumed effect-free (see funcvalue / TRUST);
+        # a local bound to a bound method / element (f = x.sort; f()) is NOT accepted
+        if isinstance(cb, ast.Name) and any(a[0] == "expr" and isinstance(a[1], (ast.Attribute, ast.Subscript, ast.Lambda))
+                                            for a in self.assigned.get(cb.id, [])):
+            fail(node, f"call of local `{cb.id}` bound to an attribute/element (possible bound in-place method)", self.f.qual)
+        if not isinstance(cb, ast.Name):
+            fail(node, "call of a computed callable expression", self.f.qual)
         c = self.ex(cb)
         self.note(f"line {node.lineno}: call of a run-time callable `{ast.unparse(cb)[:40]}` treated as effect-free, result may alias its arguments")
         return D(True, (), frozenset().union(c.srcs(), *[x.srcs() for x in elem_args]))
@@ -956,6 +969,9 @@ class FT2(FT):
             fail(e, "call of " + d[0], self.f.qual)
         name = d[1]
         allv = pos + list(kws.values()) + star + dstar
+        if "out" in kws and name.startswith("numpy."):
+            # numpy's out= keyword: the result is written into that argument
+            self.emit(("write", self.tmp(kws["out"], "$w")))
         if name in EXT_WRITES:
             w = EXT_WRITES[name]
             tgt = kws.get(w) if isinstance(w, str) else (pos[w] if w < len(pos) else None)
